@@ -270,6 +270,49 @@ inline void manyMessages(Ctx& c, long j)
     c.count("frames_with_hundreds_of_messages", 2);
 }
 
+// deterministic: frames longer than 64 KiB (aggregated messages summing past 65536 bytes, a 65535-byte message followed by
+// another message / by zero padding), whole, cut near the end and zero padded
+inline void bigFrames(Ctx& c, long j)
+{
+    static const std::vector<std::vector<size_t>> shapes = {
+        {30000, 30000, 30000}, {40000, 40000}, {20000, 20000, 20000, 20000, 20000}, {65535, 1}, {65535}, {65535, 65535}, {1, 65535}, {65519, 0, 3},
+        {65500, 10, 10, 10}, {32768, 32768, 1}, {65535, 0}, {10, 65510, 10}};
+    const auto& sh = shapes[static_cast<size_t>(j) % shapes.size()];
+    Rng r = c.fixedRng(j, 43);
+    bool status = (j / static_cast<long>(shapes.size())) % 2;
+    Kind kd = status ? K_GEN_STATUS : ((j % 3 == 0) ? K_ETH : K_GEN_DATA);
+    uint8_t mt = kindMsgType(kd, r);
+    std::vector<GMsg> ms;
+    for (size_t L : sh)
+    {
+        uint8_t dummy;
+        GMsg m = genMsg(r, L >= 6 ? kd : (status ? K_GEN_STATUS : K_GEN_DATA), std::max<size_t>(L, 1), dummy);
+        if (L == 0)
+            m.payload.clear();
+        else if (m.payload.size() != L)
+            m.payload = r.bytes(L), m.ptype = 0x33;
+        ms.push_back(std::move(m));
+    }
+    Bytes f = buildFrame(1, 0x0203, mt, 4, 77, ms);
+    Checker ck{c};
+    ASAM::CMP::Decoder dec;
+    uint64_t sb = mix64(0xb16f, static_cast<uint64_t>(j));
+    ck.check(dec, f, "frame longer than 64 KiB", sb);
+    for (size_t cut : {size_t(1), size_t(2), size_t(15), size_t(16), size_t(17), size_t(40)})
+        if (f.size() > cut)
+        {
+            Bytes t(f.begin(), f.end() - static_cast<long>(cut));
+            ck.check(dec, t, "frame longer than 64 KiB cut short", mix64(sb, 1));
+        }
+    for (size_t pad : {size_t(1), size_t(15), size_t(16), size_t(17), size_t(64)})
+    {
+        Bytes t = f;
+        t.insert(t.end(), pad, 0);
+        ck.check(dec, t, "frame longer than 64 KiB zero padded", mix64(sb, 2));
+    }
+    c.count("frames_longer_than_64KiB", 12);
+}
+
 inline void randomCase(Ctx& c, long idx)
 {
     Rng r = c.caseRng(idx);
@@ -304,10 +347,11 @@ constexpr long kFieldSweeps = 3;
 constexpr long kValiditySweeps = 7;
 constexpr long kInnerLengthSweeps = 21;
 constexpr long kManyMessages = 8;
+constexpr long kBigFrames = 24;
 
 inline long count(Ctx& c)
 {
-    return kKindSweeps + kFieldSweeps + kValiditySweeps + kInnerLengthSweeps + kManyMessages + (c.thorough() ? 8000000 : 40000);
+    return kKindSweeps + kFieldSweeps + kValiditySweeps + kInnerLengthSweeps + kManyMessages + kBigFrames + (c.thorough() ? 8000000 : 40000);
 }
 
 inline void run(Ctx& c, long idx)
@@ -326,7 +370,10 @@ inline void run(Ctx& c, long idx)
     idx -= kInnerLengthSweeps;
     if (idx < kManyMessages)
         return manyMessages(c, idx);
-    randomCase(c, idx + kKindSweeps + kFieldSweeps + kValiditySweeps + kInnerLengthSweeps + kManyMessages);
+    idx -= kManyMessages;
+    if (idx < kBigFrames)
+        return bigFrames(c, idx);
+    randomCase(c, idx + kKindSweeps + kFieldSweeps + kValiditySweeps + kInnerLengthSweeps + kManyMessages + kBigFrames);
 }
 
 }  // namespace c04
